@@ -179,6 +179,9 @@ func (g *aolGen) msg() (string, []int) {
 				fp = pick(g.r, []string{o, w}) // the owner (or the writer itself) pays
 			}
 			sg = []int{idx(fp), idx(w)}
+			if fp != o && g.r.Chance(15) {
+				sg = []int{idx(o), idx(w)} // the owner signs (and would pay) in place of the named fee payer: must be refused
+			}
 		}
 		return joinSp("aol.AddRecord", toks(t), tok(g.bytesVal(70)), tok(g.bytesVal(5000)), toks(w), toks(o), toks(fp)), sg
 	case k < 88:
@@ -495,8 +498,18 @@ func writerListed(x *Exec, owner, topic, writer string) bool {
 	if err1 != nil || err2 != nil {
 		return false
 	}
+	// looked up under the key the layout prescribes (prefix 0x02, then owner, topic name and writer, each behind its length
+	// byte) — computed here, not by the code under test, so that a writer filed under another key does not count as listed
+	if len(o) > 255 || len(topic) > 255 || len(w) > 255 {
+		return false
+	}
+	key := []byte{0x02}
+	for _, c := range [][]byte{o, []byte(topic), w} {
+		key = append(key, byte(len(c)))
+		key = append(key, c...)
+	}
 	defer func() { recover() }()
-	return x.C.App.AolKeeper.HasWriter(x.C.Ctx(), aoltypes.WriterCompositeKey{OwnerAddress: o, TopicName: topic, WriterAddress: w})
+	return x.C.Ctx().KVStore(x.C.App.GetKey(aoltypes.StoreKey)).Has(key)
 }
 
 func hasGrant(x *Exec, granter, grantee sdk.AccAddress, url string) bool {
